@@ -9,4 +9,7 @@ wt="$1"; id="$2"; tier="${3:-quick}"
 name="$(basename "$wt")"
 b="/verif/build-mut/$name"
 mkdir -p "$b/out"
-exec unshare -m bash -c "mount --bind '$wt' /repo && cd /verif && VERIF_BUILD_DIR='$b' VERIF_OUT_DIR='$b/out' ./check $id $tier"
+# private copy of the Coq tree: translator-generated files (coq/gen) and .vo files of a mutated
+# run must not leak into the shared development
+rsync -a --delete /verif/coq/ "$b/coq/"
+exec unshare -m bash -c "mount --bind '$wt' /repo && mount --bind '$b/coq' /verif/coq && cd /verif && VERIF_BUILD_DIR='$b' VERIF_OUT_DIR='$b/out' ./check $id $tier"
